@@ -183,7 +183,7 @@ def expected_stream(prog, ref, show_skipped, filenames):
             if not (selected or show_skipped):
                 return
             events.append(["scenario", name])
-            steps = all_steps_of(feat, inst)
+            steps = all_steps_of(feat, inst) if name not in ref.no_background else list(inst["item"]["steps"])
             for s in steps:
                 events.append(["step", step_text(s, inst["rowdict"])])
             statuses = ref.steps.get(name) or []
@@ -316,6 +316,8 @@ def check(case):
         res.label(lab)
     if ref.skipped_by_hook:
         res.label("skipped-by-hook:" + sorted(ref.skipped_by_hook)[0][0])
+    if ref.no_background:
+        res.label("background-switched-off-by-hook")
     for n in names:
         res.label("fmt:" + n)
     res.nontrivial = len(names) >= 2 and bool(set(interesting) - {"dry-run"})
@@ -626,6 +628,10 @@ def case_st(draw):
     # run-time exclusion: a before_feature / before_rule / before_scenario hook skips its element
     if not prog.get("hook_faults") and not prog.get("cleanups") and draw(st.integers(0, 3)) == 0:
         prog["hook_faults"] = [[draw(st.integers(0, 10000)), "skip"]]
+    # ... or a before_scenario hook switches the background off for its scenario (scenario.use_background = False)
+    if not prog.get("hook_faults") and not prog.get("cleanups") and draw(st.integers(0, 4)) == 0 and \
+            any(f.get("bg") or any(it["k"] == "r" and it.get("bg") for it in f["items"]) for f in prog["features"]):
+        prog["hook_faults"] = [[draw(st.integers(0, 10000)), "no_background"]]
     names = draw(st.lists(st.sampled_from(FORMATTERS), min_size=1, max_size=5))
     if draw(st.integers(0, 2)) == 0 and "json" not in names:
         names.insert(draw(st.integers(0, len(names))), "json")
@@ -665,7 +671,7 @@ def explore(rec):
 def required_labels(tier):
     return ["fmt:" + f for f in FORMATTERS] + ["json:background-steps", "nested-steps", "nested-steps+verbose", "rule-background", "outline", "failure", "deselection", "dry-run",
                                                "dry-run+undefined", "readback:file", "skipped-by-hook:feature", "skipped-by-hook:scenario",
-                                               "skipped-by-hook:rule", "display:pretty-coloured-without-source"]
+                                               "skipped-by-hook:rule", "display:pretty-coloured-without-source", "background-switched-off-by-hook"]
 
 
 KNOWN_PREDICATES = {}
